@@ -2,6 +2,7 @@ import TypifyModel.Proofs.C10
 import TypifyModel.Proofs.C10Strings
 import TypifyModel.Proofs.C05Convert
 import TypifyModel.Proofs.C05ConvertArray
+import TypifyModel.Proofs.C05ConvertObject
 open TypifyModel.C10
 #print axioms table_ok
 #print axioms int_fits_tbl
@@ -23,3 +24,6 @@ open TypifyModel.C10S
 #print axioms TypifyModel.C05A.tuple_arity
 #print axioms TypifyModel.C05A.array_len
 #print axioms TypifyModel.C05A.positional_items_need_fixed_length
+#print axioms TypifyModel.C05O.members_make_struct
+#print axioms TypifyModel.C05O.closed_without_patterns_is_struct
+#print axioms TypifyModel.C05O.map_values
